@@ -534,11 +534,22 @@ def chain_traces(ctx):
     """impl -> spec: random data and decode histories with precision changes on the real ChainCoder at real and tiny widths;
     the driver checks the three restore modes, TLC validates every recorded event exactly (TraceChain.tla) where S <= 16."""
     n = 3000 if ctx.tier == "thorough" else 400
+    jobs = []
     for (w, s, precs) in (CHAIN_DRIVE_THOROUGH if ctx.tier == "thorough" else CHAIN_DRIVE_QUICK):
         base = os.path.join(ctx.work, "chaintrace_%d_%d" % (w, s))
         ctx.vh("drive_chain", extra=["--w", str(w), "--s", str(s), "--precs", precs, "--n", str(n), "--trace", base] + NARROW_DRIVE.get((w, s), []))
         if s <= 16:
-            ctx.validate_trace("TraceChain", base + ".exact.ndjson", {"W": w, "S": s}, what="ChainCoder<%d,%d> exact" % (w, s))
+            jobs.append(dict(module="TraceChain", trace=base + ".exact.ndjson", constants={"W": w, "S": s}, what="ChainCoder<%d,%d> exact" % (w, s)))
+        if s <= 64 or ctx.tier == "thorough":
+            jobs.append(big_job(ctx, "TraceBigChain", base, w, s, "ChainCoder<%d,%d> exact (limb arithmetic)" % (w, s), max_events=None if ctx.tier == "thorough" else 2500))
+    # the limb specification is tied to Chain.tla by an exhaustive equivalence check at small widths
+    for consts in ([{"W": 2, "S": 6, "LB": 1, "MaxStack": 1, "MaxData": 4}, {"W": 2, "S": 4, "LB": 1, "MaxStack": 2, "MaxData": 4}]
+                   + ([{"W": 3, "S": 6, "LB": 2, "MaxStack": 1, "MaxData": 3}, {"W": 2, "S": 8, "LB": 3, "MaxStack": 1, "MaxData": 5}, {"W": 4, "S": 8, "LB": 3, "MaxStack": 1, "MaxData": 2}] if ctx.tier == "thorough" else [])):
+        st = ctx.tlc("MC_BigChainEquiv", consts, invariants=["Queries", "Steps", "Changes", "Ctors"], workers=12, timeout=3000, label="MC_BigChainEquiv")
+        if st["spec_violation"]:
+            raise core.ToolError("MC_BigChainEquiv: %s fails with %s\n%s" % (st["spec_violation"], consts, st.get("counterexample", "")))
+    ctx.validate_traces(jobs)
+    ctx.require("big_trace_events_real_presets", 1000)
     for c in ("restore_same", "restore_suffix", "restore_concat"):
         ctx.require(c)
 
